@@ -156,15 +156,15 @@ func (comp) Gen(r *kit.Rng, maxLen int, tier string) kit.Case {
 			ops = append(ops, "get "+names[i])
 		case 4: // concurrent burst, then read everything back at quiescence
 			g := []int{2, 4, 8, 8, 16}[r.Intn(5)]
-			maxReps := 40
-			if tier == "thorough" {
-				maxReps = 400
-			}
+			heavy := 3000 // long enough for the goroutines to overlap for a while
 			k := 1 + r.Intn(5)
 			var items []string
 			for j := 0; j < k; j++ {
 				x := r.Intn(u)
-				reps := 1 + r.Intn(maxReps)
+				reps := 1 + r.Intn(40)
+				if r.Chance(30) {
+					reps = heavy/3 + r.Intn(2*heavy/3)
+				}
 				switch r.Pick(40, 15, 25, 20) {
 				case 0:
 					items = append(items, fmt.Sprintf("i*%d*0*%s", reps, names[x]))
@@ -348,4 +348,10 @@ func (r *runner) Do(op []string) (string, bool) {
 
 func (r *runner) Close() {}
 
-func main() { kit.Main(comp{}, nil) }
+func main() {
+	// the concurrent mode needs real parallelism even where a CPU quota makes the runtime pick 1
+	if runtime.GOMAXPROCS(0) < 8 {
+		runtime.GOMAXPROCS(8)
+	}
+	kit.Main(comp{}, nil)
+}
